@@ -30,6 +30,26 @@ def nonunique_physics(snap, eps=1e-8):
     return False
 
 
+def noise_level(snap, friction_noise=2e-9):
+    """Largest flow of one snapshot that creates no friction the solver resolves (pipes: friction loss <= 2e-9 bar; valves /
+    exchangers: velocity <= 1e-6 m/s) - and is small against the network's flows, so that a friction column that is wrong for
+    real flows never qualifies.  Used where the two runs have no common pipe names (split rewrite)."""
+    flows = [abs(r.get("mdot_from_kg_per_s", 0.0)) for rows in snap.values() for r in rows.values()
+             if "mdot_from_kg_per_s" in r and not math.isnan(r["mdot_from_kg_per_s"])]
+    cap = 1e-6 * max(flows, default=0.0)
+    out = 0.0
+    for t, rows in snap.items():
+        for r in rows.values():
+            m = r.get("mdot_from_kg_per_s", float("nan"))
+            if math.isnan(m) or abs(m) > cap:
+                continue
+            if t == "pipe" and "dp_friction_loss_bar" in r and abs(r["dp_friction_loss_bar"]) <= friction_noise:
+                out = max(out, abs(m))
+            elif t in ("valve", "heat_exchanger") and abs(r.get("v_mean_m_per_s", 1.0)) <= 1e-6:
+                out = max(out, abs(m))
+    return out
+
+
 def snapshot(net, tables=None):
     """{table: {name: {column: value}}} of all result tables, keyed by element name."""
     out = {}
@@ -83,6 +103,16 @@ def diff_snapshots(sa, sb, rtol=1e-7, atol=1e-9, name_map=None, reversed_names=(
         fa, fb = ra["dp_friction_loss_bar"], rb["dp_friction_loss_bar"]
         if not (math.isnan(fa) or math.isnan(fb)) and abs(fa) <= friction_noise and abs(fb) <= friction_noise:
             noise = max(noise, abs(ra["mdot_from_kg_per_s"]), abs(rb["mdot_from_kg_per_s"]))
+    # the same for valves / heat exchangers (no friction column): a velocity below 1e-6 m/s gives zeta rho/2 v^2 < 1e-13 bar
+    for t in ("valve", "heat_exchanger"):
+        for name, ra in sa.get(t, {}).items():
+            nb = (name_map or {}).get(name, name)
+            rb = sb.get(t, {}).get(nb) if nb is not None else None
+            if rb is None or "v_mean_m_per_s" not in ra:
+                continue
+            va_, vb_ = ra["v_mean_m_per_s"], rb["v_mean_m_per_s"]
+            if not (math.isnan(va_) or math.isnan(vb_)) and abs(va_) <= 1e-6 and abs(vb_) <= 1e-6:
+                noise = max(noise, abs(ra["mdot_from_kg_per_s"]), abs(rb["mdot_from_kg_per_s"]))
     zero_flow = max(zero_flow, 2 * noise)
     for t, rows in sa.items():
         if only_tables is not None and t not in only_tables:
